@@ -16,9 +16,9 @@ def ed_enc(y, sign):
 # ---------------------------------------------------------------------------------------
 def pred_dec(io, sc):
     """every accepted string must have the element size, re-encode to itself, be a subgroup
-    member (checked with the implementation's own arithmetic through e.* ops), and not be the
-    Ed25519 identity"""
-    for (i, inp, es, kind, qi) in sc.meta["decs"]:
+    member (checked with the implementation's own arithmetic through e.* ops, comparing
+    encodings), and not be the Ed25519 identity"""
+    for (i, inp, es, kind, qi, zi) in sc.meta["decs"]:
         o = io[i]
         if not o.startswith("ok"):
             continue
@@ -29,7 +29,7 @@ def pred_dec(io, sc):
             return "accepted %s but it re-encodes to %s" % (hx(inp)[:80], hx(enc)[:80])
         if kind == "ed" and inp == b"\x01" + b"\x00" * 31:
             return "accepted the identity"
-        if qi is not None and io[qi] != "ok true":
+        if qi is not None and (not io[qi].startswith("ok") or payload(io[qi]) != payload(io[zi])):
             return "accepted an element outside the prime-order subgroup: %s" % hx(inp)[:80]
     return None
 
@@ -38,24 +38,24 @@ def dec_case(sc, w, ps, inp):
     i = len(sc.lines)
     e = w.eid()
     o = sc.do("e.dec %d %d %s" % (e, ps.gid, hx(inp)))
-    qi = None
+    qi = zi = None
     if o.startswith("ok"):
         t, z = w.eid(), w.eid()
         if ps.kind == "ed":
             # q*P == identity, using the unknown-group path so that no reduction mod q can hide it
             u = w.eid()
             sc.do("e.decu %d %d %s" % (u, ps.gid, hx(inp)), NONE)
+            qi = len(sc.lines)
             sc.do("e.smul %d %d %d" % (t, u, ps.q), NONE)
         else:
             # integer groups reduce scalars mod q, so multiply in two steps (q-1)*P + P
             sc.do("e.smul %d %d %d" % (t, e, ps.q - 1), NONE)
             t2 = w.eid()
+            qi = len(sc.lines)
             sc.do("e.add %d %d %d" % (t2, t, e), NONE)
-            t = t2
+        zi = len(sc.lines)
         sc.do("e.zero %d %d" % (z, ps.gid), NONE)
-        qi = len(sc.lines)
-        sc.do("e.eq %d %d" % (t, z), NONE)
-    sc.meta.setdefault("decs", []).append((i, inp, ps.esize, ps.kind, qi))
+    sc.meta.setdefault("decs", []).append((i, inp, ps.esize, ps.kind, qi, zi))
 
 
 def gen_C05(w, tier):
@@ -590,6 +590,15 @@ def gen_C15(w, tier):
             l = len(sc.lines)
             sc.do("g.dec %d %s" % (ps.gid, hx(enc or b"")))
             rec.append((x, i, j, k, l))
+        # to_bytes/bytes_to_element are mutually inverse: no other string decodes
+        extra = []
+        genc = payload(sc.impl_out[0])
+        for alt in (genc + b"\x00", genc + genc, genc[:-1], b"\x00" + genc):
+            extra.append((alt, sc.do("g.dec %d %s" % (ps.gid, hx(alt)))))
+        if ps.kind == "ed" and not ps.toy:
+            for alt in (b"\x01" + b"\x00" * 30 + b"\x80", ((2 ** 255 - 19) + 1).to_bytes(32, "little")):
+                extra.append((alt, sc.do("g.dec %d %s" % (ps.gid, hx(alt)))))
+        sc.meta["extra"] = extra
         # bad scalar strings
         sc.do("g.sdec %d %s" % (ps.gid, hx(b"\x00" * (ps.ssize - 1))))
         sc.do("g.sdec %d %s" % (ps.gid, hx(b"\x00" * (ps.ssize + 1))))
@@ -602,6 +611,9 @@ def gen_C15(w, tier):
         def pred2(io, sc):
             kind, ssize, esize, q = sc.meta["ps"]
             seen = {}
+            for (alt, o) in sc.meta.get("extra", []):
+                if o.startswith("ok") and (len(alt) != esize or payload(o) != alt):
+                    return "bytes_to_element accepted %s, which is not the encoding of the element it returns" % hx(alt)[:70]
             for (x, i, j, k, l) in sc.meta["rec"]:
                 b = payload(io[i])
                 if b is None or len(b) != ssize:
